@@ -19,6 +19,7 @@ const (
 	chanValKey  = "H:$chan.val"
 	chanCapKey  = "H:$chan.cap"
 	deadlineKey = "H:$timer.deadline"
+	decodedKey  = "G:$decoded" // the object filled by the most recent gob Decode (codec.go)
 )
 
 // lazySpecial gives the not-yet-touched value of a model location ($clock, $chan.*, $timer.*) in an epoch.
@@ -36,6 +37,8 @@ func (x *Exec) lazySpecial(key string, ep *Epoch) *Term {
 	switch key {
 	case clockKey:
 		return Var(name, SInt)
+	case decodedKey:
+		return Var(name, SRef)
 	case chanLenKey, chanCapKey, chanValKey, deadlineKey:
 		return Var(name, ArraySort(SRef, SInt))
 	}
